@@ -165,7 +165,8 @@ class StubState:
     def purge(self, body, patch, storage, handlers): self.vc.emit('purge', self, body, patch, storage, handlers)
 
 
-@harness('H1', targets='kopf._core.reactor.processing.process_changing_cause', props=['C02', 'C03', 'C05', 'C08', 'C14'],
+@harness('H1', targets='kopf._core.reactor.processing.process_changing_cause', props=['C02', 'C03', 'C05', 'C08', 'C14', 'C13'],
+         prop_clauses={'C13': ['flag_only_set']},        # C13 "no handler executed twice because of the pause": the resume-once flag
          clauses=['gate', 'closure_iff_done_or_skip', 'store_before_purge', 'essence_is_new', 'flag_only_set',
                   'returns_delays', 'executes_selected_with_state', 'superseded_handlers_repurposed', 'results_delivered'],
          canaries=['canary.always_closes'],
